@@ -287,7 +287,7 @@ def run_urls(ctx):
             want = 'zip' if u.lower().endswith('.zip') else 'file'
         if want and want != kind:
             res.oracle_failures.append({'key': 'url-kind', 'what': 'URL %s mapped to %s reader, expected %s' % (u, kind, want),
-                                        'input': {'url': u}})
+                                        'input': {'url': u, 'want': want}})
     if ctx.model is not None:
         for (u, kind), out in zip(metas, ctx.model.batch(reqs)):
             if out != kind:
@@ -415,6 +415,14 @@ def replay(payload):
     from pysmi import error
     from pysmi.compat import decode
     inp = payload['input']
+    if 'url' in inp:
+        from pysmi.reader.url import getReadersFromUrls
+        try:
+            rs = getReadersFromUrls(inp['url'])
+            kind = {'FileReader': 'file', 'ZipReader': 'zip', 'HttpReader': 'http', 'FtpReader': 'ftp'}.get(type(rs[0]).__name__, '?')
+        except error.PySmiError as e:
+            kind = 'error'
+        return {'fails': 'want' in inp and kind != inp['want'], 'what': kind}
     base = scratch_dir()
     try:
         if 'zipreader' in inp:
